@@ -352,7 +352,7 @@ def run(tier, seed, rep):
     ]
     rep.trusted += ['harness/geo_oracle.py rect_mesh / layer_levels (cumulative sums of the spacings)',
                     'harness/geo_sym.py FastCtx (branch-decision cache, UNSAT query cache, qfnra-nlsat front end with fall-back)']
-    rep.extra['invalid_models_rechecked'] = sum(r.get('stats', {}).get('invalid_models', 0) for r in rep.results)
+    rep.extra['invalid_models_rechecked'] = sum(r.get('stats', {}).get('invalid_models', 0) + r.get('stats', {}).get('invalid_models_rechecked', 0) for r in rep.results)
     rep.process_failures()
     return rep.finish(rule='one obligation = one (label, z3 formula) per node / column / layer / block / connection on one path '
                            '(pc AND NOT formula must be unsat); list comparisons (names, orders, block map) are concrete per path; '
